@@ -16,7 +16,8 @@ type binaryStreamPProfProtoDec struct {
 }
 
 func ns(timestamp uint64) uint64 {
-	for timestamp < 1000000000000000000 {
+	// a non-zero value needs at most 18 multiplications; 0 must not loop forever
+	for i := 0; i < 18 && timestamp < 1000000000000000000; i++ {
 		timestamp *= 10
 	}
 	return timestamp
